@@ -196,4 +196,12 @@ def c02_6(c: Ctx) -> None:
         c.fail(st, f'queue invariant broken: {w}', 'the queue object of a bus can be replaced / dropped: events enqueued on the old object are lost or processed out of order')
 
 
+@ob('C02.7', 'LOCKSET', 'per-bus order relies on mutual exclusion with the other buses\' in-handler awaits, which take events from every queue: every process_event runs under the one global '
+    'lock (same obligation as C06.1) — a bus with a lock of its own has its next event started by another bus\'s inline loop while its earlier handler is still running')
+def c02_7(c: Ctx) -> None:
+    from .c06 import c06_1
+
+    c06_1(c)
+
+
 OBLIGATIONS = ob.obs
